@@ -55,11 +55,11 @@ def minimums(tier: str) -> Dict[str, int]:
         return {"evaluations": 1500, "distinct": 700, "pages_checked": 6000, "glyphs_checked": 20000, "selections_checked": 600,
                 "cyclic_docs": 60, "inherited_attr_pages": 2000, "seen:rotate_values": 10, "rotation_option_pages": 1500,
                 "tool_selections:dumppdf": 250, "tool_selections:pdf2txt": 250,
-                "page_objects_reread_after_enumeration": 4000, "pages_with_null_valued_inheritable_key": 500, "resource_category_sets_checked": 4000}
+                "page_objects_reread_after_enumeration": 4000, "pages_with_null_valued_inheritable_key": 500, "resource_category_sets_checked": 4000, "pages_without_content": 300}
     return {"evaluations": 30000, "distinct": 15000, "pages_checked": 150000, "glyphs_checked": 500000, "selections_checked": 12000,
             "cyclic_docs": 1500, "inherited_attr_pages": 40000, "seen:rotate_values": 12, "rotation_option_pages": 30000,
             "tool_selections:dumppdf": 2000, "tool_selections:pdf2txt": 2000,
-            "page_objects_reread_after_enumeration": 100000, "pages_with_null_valued_inheritable_key": 10000, "resource_category_sets_checked": 100000}
+            "page_objects_reread_after_enumeration": 100000, "pages_with_null_valued_inheritable_key": 10000, "resource_category_sets_checked": 100000, "pages_without_content": 8000}
 
 
 def shards(tier: str, seed: int) -> List[Dict[str, Any]]:
@@ -255,7 +255,14 @@ def build_doc(rng: random.Random, root: Node, order_for_content: List[Tuple[Node
         for a in getattr(n, "null_keys", []):
             if a not in n.attrs:        # (fix() may have given the page a MediaBox / Resources after the keys were drawn)
                 d[a] = None
-        if n.is_page:
+        n.blank = None
+        if n.is_page and rng.random() < 0.08:
+            # a page without content (/Contents is optional): still a page, with its own box and rotation
+            n.blank = rng.choice(["absent", "empty_array"])
+            d.update({"Type": N("Page")})
+            if n.blank == "empty_array":
+                d["Contents"] = []
+        elif n.is_page:
             eff = eff_by_nid.get(n.nid)
             ops = []
             if eff is not None:
@@ -449,6 +456,9 @@ def check_tree_doc(rec, data: bytes, ref_pages: List[Tuple[Node, Dict[str, Any]]
         for i, pt in enumerate(corner_points(mb)):
             ex, ey = expected_device(pt, mb, rot)
             exp_chars.append((chr(65 + i), fontname, float(ex), float(ey)))
+        if getattr(n, "blank", None):
+            exp_chars = []
+            rec.count("pages_without_content")
         got_chars = [c for c in o["chars"] if c[0] in "ABCDE" and len(c[0]) == 1][:5]
         if via == "extract_pages":  # layout analysis reorders the glyphs; the aggregator path checks the order
             got_chars.sort(key=lambda c: c[0])
